@@ -464,6 +464,7 @@ func (rn *Runner) Corpus() {
 	if it := findItem(post, u4); it != nil && it.Status == StChalling {
 		rn.ProofOK(val(0), val(0), u4, -1)
 		rn.ProofOK(val(0), val(0), u4, 10)
+		rn.EndBlock()
 	}
 	ts = findItem(post, u4).Ts
 	rn.BlockAt(ns(ts + 10_000_000_000))
